@@ -117,6 +117,8 @@ def gen_world(seed, tier):
             # a budgeted model that is used again after more wall time than its whole budget has passed
             seq = seq + ["solve"]
             long_pause_before = len(seq) - 1
+            if cname in ("MinFlowDecomp", "kFlowDecomp") and rng.random() < 0.7:
+                args["optimization_options"] = {"optimize_with_greedy": False}      # so that the solver is really used
         for si, s in enumerate(seq):
             if si == long_pause_before:
                 # ... or after almost all of it has passed
@@ -126,7 +128,7 @@ def gen_world(seed, tier):
                 else:
                     # measured from this model's first use, as a wall clock started then would see it
                     ops.append({"op": "pause", "h": h, "seconds": 0, "until_fraction_of_limit": fr, "limit": so0["time_limit"]})
-            if rng.random() < 0.25:
+            if rng.random() < 0.25 and long_pause_before is None:
                 # the caller does something else for a while: (virtual) wall time passes between two calls
                 ops.append({"op": "pause", "h": h, "seconds": rng.choice([30, 100, 1000, 5000, 20000])})
             ops.append({"op": s, "h": h})
